@@ -85,10 +85,12 @@ def c15_1(ctx: Ctx) -> RuleResult:
         fin_nodes = {n for c, _ in fins for n in cfg.node_containing(c)}
         others = [c for c, t in sites if (c, t) not in starts]
         work = work_calls(ctx, run)
+        aeo0 = abort_edges_only(ctx, run)
         for c in others + [w for w in work if w not in others]:
             ok, wit = True, []
             for n in cfg.node_containing(c):
-                path = pf.find_path(cfg.entry, lambda m, n=n: m is n, blocked=lambda m: m in start_nodes)
+                # exceptional edges only where an abort can actually be raised (building an Event object cannot)
+                path = pf.find_path(cfg.entry, lambda m, n=n: m is n, blocked=lambda m: m in start_nodes, edge_ok=aeo0)
                 if path is not None:
                     ok, wit = False, describe_path(run, path)
             res.add(run, c, "the step's START event is emitted before this emit / evaluation on every path", ok,
